@@ -42,7 +42,7 @@
      [it_cc side item], [it_drop side item] : item reports ConnectionClosed to [side] / item = PDropped side;
    - [opp side]      : the other side.                                                                 *)
 From TungModel Require Import Base Coding Mask Header Frame Utf8 World Message Codec Protocol Pair.
-From TungModel.proofs Require Import PairCodecP PairStepP PairInvP PairP.
+From TungModel.proofs Require Import PairCodecP PairStepP PairInvP PairP PairLiveP.
 
 (* ---------------------------------------------------------------------------------------------- *)
 (* Safety 1: for every schedule, no call on either side returns a protocol error — never
@@ -95,6 +95,44 @@ Theorem C04_delivery_before_close : forall cfg_c cfg_s keys acts items p pre sd 
   items = pre ++ PRes sd o r :: post -> gotc r = true ->
   del_of sd pre = acc_of (opp sd) items.
 Proof. exact delivery_before_close. Qed.
+
+(* ---------------------------------------------------------------------------------------------- *)
+(* Liveness, canonical fair rounds.
+   Vocabulary (Pair.v, proofs/PairP.v, PairLiveP.v):
+   - [fair_flush sd]  = PDo sd OpFlush [] accept_all [FlOk; FlOk]   : a flush over an accepting transport;
+     [fair_read sd]   = PDo sd OpRead [u64_max] accept_all [FlOk; FlOk] : a read that is handed everything
+                        in flight (up to 2^64-1 bytes per call);
+   - [fair_side sd n] = fair_flush sd :: n times fair_read sd ++ [PDrop sd]  (drop if told closed);
+     [fair_round n]   = fair_side Server n ++ fair_side Client n;
+   - [closing p]      : the handshake has started — the client's or the server's state is not Active
+                        (that side has called close, or has received the peer's Close);
+   - [both_closed p]  : both sides have been told ConnectionClosed and both have dropped the transport;
+   - [inflight p]     : the number of bytes in flight or buffered: both in-flight queues, both in_buffers,
+                        both out_buffers;  [nbound p] : an explicit (generous) polynomial in inflight p.
+   From EVERY reachable state (any schedule before) in which the handshake has started, K = 2 fair rounds
+   with n reads per side and round complete it, for every n >= nbound p (further reads answer
+   WouldBlock / AlreadyClosed and change nothing, so "read until WouldBlock" is covered) — and the
+   extended run is again a reachable run, so all the safety theorems above apply to it. *)
+Theorem C04_liveness_rounds : forall cfg_c cfg_s keys acts items p n items2 p2,
+  reach cfg_c cfg_s keys acts items p -> closing p -> (nbound p <= n)%nat ->
+  prun p (fair_round n ++ fair_round n) = (items2, p2) ->
+  both_closed p2 /\
+  reach cfg_c cfg_s keys (acts ++ fair_round n ++ fair_round n) (items ++ items2) p2.
+Proof. exact liveness_rounds_explicit. Qed.
+
+(* the property in one statement: both told and dropped; no protocol error and no panic over the whole
+   run; the server is told (and drops) before the client is told *)
+Theorem C04_handshake_completes : forall cfg_c cfg_s keys acts items p n items2 p2,
+  reach cfg_c cfg_s keys acts items p -> closing p -> (nbound p <= n)%nat ->
+  prun p (fair_round n ++ fair_round n) = (items2, p2) ->
+  both_closed p2 /\ Forall it_clean (items ++ items2) /\
+  (forall pre o r post, items ++ items2 = pre ++ PRes Client o r :: post -> is_cc r = true ->
+     existsb (it_cc Server) pre = true /\ existsb (it_drop Server) pre = true).
+Proof. exact handshake_completes. Qed.
+
+(* NOT proved (the generalisation of the design note): completion under EVERY fair interleaving of
+   flush / read / drop actions (a rank argument over arbitrary interleaved actions).  The theorems above
+   are for the canonical rounds, from every reachable state. *)
 
 (* ---------------------------------------------------------------------------------------------- *)
 (* Non-vacuity and the examples of complete handshakes (vm_compute on Pair.v).
@@ -203,9 +241,44 @@ Proof.
   - vm_compute in E. injection E as <- <-. vm_compute. repeat split; reflexivity.
 Qed.
 
+(* Why the transport's write side must be "soft" (reliable transport): a hard transport error is outside
+   the property's assumption and does break the handshake.  Witness (write_buffer_size 0): the server
+   closes; the client reads the Close; the client's flush of its reply hits ConnectionReset, which the
+   library reports as ConnectionClosed (documented: the peer is gone); the client drops; the server,
+   still waiting for the reply, reads end-of-file and reports ResetWithoutClosingHandshake. *)
+Definition ex_cfg0 : config := mkConfig 0 u64_max None None false.
+Example C04_hard_transport_error_remark :
+  option_map (fun p0 => fst (prun p0
+    [PDo Server (OpClose None) [] accept_all [FlOk]; fair_read Client;
+     PDo Client OpFlush [] [WrErr ConnReset] []; PDrop Client; fair_read Server]))
+    (pair_init ex_cfg0 ex_cfg0 ex_keys)
+  = Some [PRes Server (OpClose None) (ResUnit (ROk tt));
+          PRes Client OpRead (ResMsg (ROk (MClose None)));
+          PRes Client OpFlush (ResUnit (RErr EConnectionClosed));
+          PDropped Client;
+          PRes Server OpRead (ResMsg (RErr (EProtocol ResetWithoutClosingHandshake)))].
+Proof. vm_compute. reflexivity. Qed.
+
+(* the hypotheses of the liveness theorems are satisfiable: a reachable state in which the client has
+   called close while its transport was blocked (nothing sent yet); n = nbound p *)
+Example C04_liveness_nonvacuous :
+  exists items p n, reach ex_cfg ex_cfg ex_keys [blocked Client (OpClose None)] items p /\ closing p /\
+                    (nbound p <= n)%nat.
+Proof.
+  destruct (ex_run [blocked Client (OpClose None)]) as [[items p]|] eqn:E; [|vm_compute in E; discriminate E].
+  exists items, p, (nbound p). split; [|split; [|apply le_n]].
+  - unfold reach. split; [repeat split|]. split; [repeat split|]. split.
+    + repeat constructor.
+    + unfold ex_run in E. destruct (pair_init ex_cfg ex_cfg ex_keys) as [p0|] eqn:E0; [|discriminate E].
+      exists p0. split; [reflexivity|]. injection E as E. exact E.
+  - vm_compute in E. injection E as _ <-. left. cbn. discriminate.
+Qed.
+
 Print Assumptions C04_safety_no_protocol_error.
 Print Assumptions C04_safety.
 Print Assumptions C04_safety_prefix.
 Print Assumptions C04_order.
 Print Assumptions C04_order_trace.
 Print Assumptions C04_delivery_before_close.
+Print Assumptions C04_liveness_rounds.
+Print Assumptions C04_handshake_completes.
